@@ -788,6 +788,63 @@ fn model_mismatch(ctx: &Ctx) {
     }
 }
 
+/// ZXSTZF_FSET of v1.5 files: whether the instruction executed last before the snapshot changed the flags.
+/// The only instructions that can tell are SCF and CCF (flags 3/5 come from A alone when it did, from
+/// A OR F when it did not): the first instruction of the restored program is one of them.
+fn szx_fset(ctx: &Ctx) {
+    for m128 in [false, true] {
+        for fset in [false, true] {
+            for (a, f) in [(0x00u8, 0x28u8), (0x00, 0x08), (0x20, 0x08), (0x08, 0x20), (0x28, 0x00)] {
+                for op in [0x37u8, 0x3F] {
+                    for order in [0u8, 2, 5] {
+                        for rx in [Rx::Fresh, Rx::Other] {
+                            let mut s = MState::new(m128, 5);
+                            s.regs.af = (a as u16) << 8 | f as u16;
+                            s.regs.pc = 0x9000;
+                            s.regs.sp = 0xBF00;
+                            s.regs.iff1 = false;
+                            s.regs.iff2 = false;
+                            s.banks[2][0x1000] = op;
+                            let file = szx(&s, &SzxOpts { fset, order, minor: 5, ..SzxOpts::default() });
+                            let mut e = receiver(m128, rx, 0);
+                            ctx.add_eval(1);
+                            let case = json!({"kind":"szx-fset","m128":m128,"fset":fset,"a":a,"f":f,"op":op,"order":order,"receiver":format!("{:?}", rx)});
+                            if !matches!(load(&mut e, Enc::Szx { compressed: false, order, unknown: false, minor: 5 }, file), Ok(Ok(()))) {
+                                ctx.violation("C14:szx-fset:load-failed", "well-formed v1.5 SZX rejected", case);
+                                continue;
+                            }
+                            e.set_debug_interface(rig::VDebug::always());
+                            rig::step(&mut e);
+                            let got = rig::regs_view(e.verif_cpu()).af as u8;
+                            let yx = if fset { a & 0x28 } else { (a | f) & 0x28 };
+                            let carry = if op == 0x37 { 1 } else { (f & 1) ^ 1 };
+                            let h = if op == 0x3F { (f & 1) << 4 } else { 0 };
+                            let want = (f & 0xC4) | yx | h | carry;
+                            if got != want {
+                                ctx.violation(
+                                    &format!("C14:szx-fset:{}", if fset { "set" } else { "clear" }),
+                                    &format!(
+                                        "v1.5 SZX (chunk order {}) with A={:02x} F={:02x} and ZXSTZF_FSET {}: the first instruction of the restored program, {}, leaves F={:02x}; the state the file describes gives F={:02x}",
+                                        order,
+                                        a,
+                                        f,
+                                        if fset { "set" } else { "clear" },
+                                        if op == 0x37 { "SCF" } else { "CCF" },
+                                        got,
+                                        want
+                                    ),
+                                    case,
+                                );
+                            }
+                            ctx.outcome(0xF5E7 ^ (got as u64) << 8 ^ (fset as u64) << 20);
+                        }
+                    }
+                }
+            }
+        }
+    }
+}
+
 fn scr_files(ctx: &Ctx) {
     for m128 in [false, true] {
         for k in 0..4usize {
@@ -855,6 +912,7 @@ pub fn run(tier: Tier, seed: u64, replay: Option<String>) -> i32 {
             "szx48-ay" => szx48_ay_interface(&ctx),
             "mismatch" => model_mismatch(&ctx),
             "scr" => scr_files(&ctx),
+            "szx-fset" => szx_fset(&ctx),
             "ay-audible" => audible_ay(&ctx),
             _ => states_x_encodings(&ctx, true),
         }
@@ -868,11 +926,12 @@ pub fn run(tier: Tier, seed: u64, replay: Option<String>) -> i32 {
     szx48_ay_interface(&ctx);
     model_mismatch(&ctx);
     scr_files(&ctx);
+    szx_fset(&ctx);
     ctx.add_nontrivial(ctx.evaluations.load(std::sync::atomic::Ordering::Relaxed));
     ctx.sample(json_case(true, 3, Enc::Szx { compressed: true, order: 4, unknown: false, minor: 4 }, Rx::Locked, "absolute"));
     ctx.note("not_judged", json!("which of the two published conventions (PC on the HALT / after it) an SZX with HALTED uses; IFF1 and AY/hidden latches for SNA (not carried); mouse presence is checked only through SZX"));
     ctx.finish(
-        "abstract states (registers incl. alternates, IM, I/R boundary values, border, six paging values incl. shadow screen and lock, position-coded RAM in all banks, pictures in both screens, AY register file) written by the spec-based writers as SNA, SZX stored, SZX zlib, SZX in 6 chunk orders, SZX with unknown chunks interleaved (one of them 70001 bytes long), v1.4/1.5; loaded through assets returning short reads of rotating sizes {whole,1,2,3,7,127,128,129} into seven receivers (fresh, halted, mid FD prefix, paging locked, everything different incl. AY, ROM running mid-frame, paging latch already equal to the file's byte); absolute oracle: registers, IFFs, IM, HALT/prefix/EI latches cleared, border, paging latch+lock+map, every RAM bank (by bank and as the CPU sees it at every address of 4000..FFFF), AY selected register and all 16 registers read back through the ports, picture after 3 frames = decode of the file's displayed screen, and of the other screen after the program flips bit 3; differential: all encodings x receivers of one state end in the same digest of registers, RAM and both frame buffers; audible AY state vs a port-written reference, and a one-shot envelope restarted by loading the same file again after it has decayed; 48K SZX with/without the AY-interface flag into 48K machines with the AY on/off; HALTED (both PC conventions, also with a 76h byte in front of the HALT; exactly one interrupt must release it and return behind the HALT) and EILAST; files for the other model; SCR into four receivers. distinct_nontrivial = loads",
+        "abstract states (registers incl. alternates, IM, I/R boundary values, border, six paging values incl. shadow screen and lock, position-coded RAM in all banks, pictures in both screens, AY register file) written by the spec-based writers as SNA, SZX stored, SZX zlib, SZX in 6 chunk orders, SZX with unknown chunks interleaved (one of them 70001 bytes long), v1.4/1.5; loaded through assets returning short reads of rotating sizes {whole,1,2,3,7,127,128,129} into seven receivers (fresh, halted, mid FD prefix, paging locked, everything different incl. AY, ROM running mid-frame, paging latch already equal to the file's byte); absolute oracle: registers, IFFs, IM, HALT/prefix/EI latches cleared, border, paging latch+lock+map, every RAM bank (by bank and as the CPU sees it at every address of 4000..FFFF), AY selected register and all 16 registers read back through the ports, picture after 3 frames = decode of the file's displayed screen, and of the other screen after the program flips bit 3; differential: all encodings x receivers of one state end in the same digest of registers, RAM and both frame buffers; audible AY state vs a port-written reference, and a one-shot envelope restarted by loading the same file again after it has decayed; 48K SZX with/without the AY-interface flag into 48K machines with the AY on/off; HALTED (both PC conventions, also with a 76h byte in front of the HALT; exactly one interrupt must release it and return behind the HALT) and EILAST; ZXSTZF_FSET set/clear observed by SCF/CCF as the first restored instruction (5 A/F pairs x 3 chunk orders x 2 receivers); files for the other model; SCR into four receivers. distinct_nontrivial = loads",
         false,
         &["writers in formats.rs follow the published SNA/SZX layouts, not the loaders"],
     )
